@@ -162,7 +162,12 @@ func genC36(t *Tape) *Plan {
 			g.plan.Ops = append(g.plan.Ops, Op{Kind: "server_close", Concurrent: t.Draw("c36.conc", 3) != 0})
 		}
 		slot := t.Draw("op.slot", k.Slots)
-		switch t.Pick("c36.kind", []int{6, 2, 1, 2}) {
+		switch t.Pick("c36.kind", []int{6, 2, 1, 2, 2}) {
+		case 4:
+			// a slow client: the connection is opened and only a prefix (possibly empty) of its CONNECT arrives;
+			// the handler is reading when shutdown begins
+			full := refcodec.Encode(&refcodec.Packet{Type: refcodec.CONNECT, ProtoVer: 4, ClientID: "slow", CleanStart: true}, 4, refcodec.EncOpts{})
+			g.plan.Ops = append(g.plan.Ops, Op{Kind: "connect", Slot: 6 + t.Draw("c36.slowslot", 2), Raw: full[:t.Draw("c36.prefix", len(full))], Note: "slow"})
 		case 0:
 			g.Connect(slot)
 			g.plan.Ops[len(g.plan.Ops)-1].Concurrent = t.Draw("c36.burst", 2) == 0
